@@ -452,6 +452,7 @@ Definition extendTimer (cnt : Z) : M unit :=
   vc <- ViewChanging ;;
   if vc then ret tt else
   s <- get ;;
+  if Mq s =? 0 then panic else                     (* integer division by d.M() *)
   let d := goquot (wrap64 (cnt * timePerBlock s)) (Mq s) in
   ask_unit (fun c => match c with CTimerExtend x => x =? d | _ => false end).
 
